@@ -1558,9 +1558,17 @@ def mg_ensures(s):
 
 
 def mg_result(ctx, s):
-    if not all(isinstance(d, SymDict) for d in s.dicts):
-        raise OutOfSubset("merge() of enumerated mappings at a call site")
-    r = SymDict(M.DictRoot(z3.Const(ctx.fresh_name("merged"), TREE), "merged"))
+    """Call sites: merge is `update` folded from a fresh empty dict - replay that with update's contract (any mix of opaque and enumerated mappings)."""
+    interp = s.interp
+    r = SymDict.empty(ctx, "merged")
+    calls = ctx.ghost.setdefault("update_calls", [])
+    n0 = len(calls)
+    for d in s.dicts:
+        if not isinstance(d, (SymDict, ItemsMap)):
+            raise OutOfSubset("merge() of a non-modelled mapping")
+        C_UPD_NEW.apply(interp, [r, d], {})
+    s._merge_ghost = list(calls[n0:])
+    del calls[n0:]  # the caller's ghost lists its OWN update calls only
     return r
 
 
@@ -1663,24 +1671,47 @@ def rf_setup(ctx):
             n = cand
             break
     defaults = [SymDict.fresh(ctx, f"defaults{i}") for i in range(n)]
-    if ctx.branch(ctx.fresh("no_user_files", "bool").t):
+    enumerated = None
+    if n == 1 and ctx.branch(ctx.fresh("enumerated_default_section", "bool").t):
+        # one default {k1: {k2: v}} written out, so that the post-state can be stated entry by entry (and absent key by absent key)
+        k1, k2, v = fresh_nd_key(ctx, "k1"), fresh_nd_key(ctx, "k2"), Leaf(ctx.fresh("v2", "int"))
+        enumerated = (k1, k2, v)
+        defaults = [ItemsMap([(k1, ItemsMap([(k2, v)]))])]
+        collected, tag = ItemsMap([]), "enumerated-default-section"
+    elif ctx.branch(ctx.fresh("no_user_files", "bool").t):
         collected, tag = ItemsMap([]), "no-user-config"
     else:
         collected, tag = SymDict.fresh(ctx, "user_config"), "user-config"
     ctx.ghost["collected"] = collected
+    # the store before the refresh is ARBITRARY: any keys, at any depth, also inside sections that the defaults create
     cfg = SymDict.fresh(ctx, "config")
-    return NS(config=cfg, defaults=defaults, collected=collected, n=n, tag=tag, case=f"{n}-defaults,{tag}")
+    return NS(config=cfg, defaults=defaults, collected=collected, n=n, tag=tag, case=f"{n}-defaults,{tag}", enumerated=enumerated)
 
 
 def rf_snapshot(s):
-    return NS(defaults=list(s.defaults), dwrites=[d.root.writes for d in s.defaults])
+    return NS(defaults=list(s.defaults), dwrites=[d.root.writes for d in s.defaults if isinstance(d, SymDict)])
 
 
 def rf_ensures(s):
     t2 = s.config.tree()
-    ft = fold_defaults([d.tree() for d in s.defaults])
     out = [("defaults-stack-unchanged", z3.BoolVal(len(s.defaults) == len(s.old.defaults) and all(a is b for a, b in zip(s.defaults, s.old.defaults))
-                                                    and [d.root.writes for d in s.defaults] == s.old.dwrites))]
+                                                    and [d.root.writes for d in s.defaults if isinstance(d, SymDict)] == s.old.dwrites))]
+    if s.enumerated is not None:
+        # WHOLE post-state, entry by entry: exactly the default section with exactly the default key; every other key - at the top
+        # level AND inside the section - is absent, whatever the store held before (others_unchanged w.r.t. the EMPTY dict)
+        k1, k2, v = s.enumerated
+        e1, e2 = z3.String("e1!q"), z3.String("e2!q")
+        sec_keys = lambda t: CF(t)
+        out += [("enumerated:no-top-level-key-other-than-the-default-section-survives",
+                 forall(e1, implies(present(t2, e1), AND(norm(e1) == norm(k1), is_dict(t2, e1))), patterns=[KF(t2)[e1]])),
+                ("enumerated:the-default-section-exists", z3.Exists([e1], AND(is_dict(t2, e1), norm(e1) == norm(k1)))),
+                ("enumerated:inside-the-default-section-only-the-default-key-with-the-default-value-survives",
+                 forall([e1, e2], implies(AND(is_dict(t2, e1), present(CF(t2)[e1], e2)),
+                                          AND(norm(e2) == norm(k2), KF(CF(t2)[e1])[e2] == LEAF, LF(CF(t2)[e1])[e2] == leaf_id(v))),
+                        patterns=[KF(CF(t2)[e1])[e2]])),
+                ("enumerated:the-default-key-is-there", z3.Exists([e1, e2], AND(is_dict(t2, e1), KF(CF(t2)[e1])[e2] == LEAF, LF(CF(t2)[e1])[e2] == leaf_id(v), norm(e2) == norm(k2))))]
+        return [(f"[{s.case}]{a}", b) for a, b in out]
+    ft = fold_defaults([d.tree() for d in s.defaults])
     if isinstance(s.collected, ItemsMap):
         out.append(("store-is-exactly-merge(*defaults)", t2 == ft))
     else:
@@ -2295,6 +2326,16 @@ def klass_history(inp, res):
     return k
 
 
+def fam_refresh():
+    """Histories that end in refresh (fallback search for the refresh contract): every pair of earlier operations, then refresh."""
+    import itertools
+    ops = history_ops(mixed=False)
+    yield dict(ops=[["refresh"]])
+    for n in (1, 2):
+        for h in itertools.product(range(len(ops)), repeat=n):
+            yield dict(ops=[list(ops[i]) for i in h] + [["refresh"]])
+
+
 def fam_history_small():
     """Small family used as fallback search when a store obligation fails (no mixed spellings: those are a known class)."""
     import itertools
@@ -2428,7 +2469,7 @@ for _c, _rt, _fam, _conc in (
         (C_UPD_NEW, rt_update, fam_update, None), (C_UPD_OLD, rt_update, fam_update, None), (C_UPD_ND, rt_update, fam_update, None),
         (C_UPD_NEW2, rt_update, fam_update, None), (C_UPD_OLD2, rt_update, fam_update, None), (C_UPD_ND2, rt_update, fam_update, None),
         (C_UPDDEF2, rt_device, fam_device_via("update_defaults"), conc_device("dev", "update_defaults")),
-        (C_MERGE, rt_update, fam_update, None), (C_UPDDEF, rt_history, fam_history_small, None), (C_REFRESH, rt_history, fam_history_small, None),
+        (C_MERGE, rt_update, fam_update, None), (C_UPDDEF, rt_history, fam_history_small, None), (C_REFRESH, rt_history, fam_refresh, None),
         (C_ENTER, rt_with, fam_with, None), (C_EXIT, rt_with, fam_with, None)):
     _c.rt, _c.rt_family, _c.concretize = _rt, _fam, _conc
 
